@@ -34,7 +34,12 @@ MANIFEST = {
             "surface theorems + IVT for rays in general position), levels_share_the_ray and "
             "nested_trace_first_change_partial (composition over the depth: one step), termination. An "
             "impl-side oracle locates points of every ray independently from the OrangeInput "
-            "definition (senses from the surface functions, logic evaluation, daughter recursion).",
+            "definition (senses from the surface functions, logic evaluation, daughter recursion). "
+            "set_dir on a boundary is sampled densely near the tangent plane (±20°) on surfaces of "
+            "every nesting level of hierarchies with >= 3 levels of non-commuting rotations / "
+            "reflections and curved deepest surfaces; each flag is judged against a surface normal "
+            "computed independently from the OrangeInput (local point, gradient, rotations composed "
+            "deepest first) and the track is followed with point location to the world exit.",
     "design_ref": "DESIGN.md §6 C03",
     "note": "Partial: the nested trace is proved for one find/cross step (first change of the nested "
             "location = distance and level of find_next_step); iterating it needs the re-initialised "
@@ -152,6 +157,61 @@ class PGeo:
         q = [p[i] - tr[9 + i] for i in range(3)]
         # rotation matrix is daughter-to-parent (row-major); inverse = transpose
         return [sum(tr[3 * r + c] * q[r] for r in range(3)) for c in range(3)]
+
+    @staticmethod
+    def up_dir(tr, n):
+        """rotate a direction from daughter to parent frame"""
+        if not tr or len(tr) == 3:
+            return n
+        return [sum(tr[3 * r + c] * n[c] for c in range(3)) for r in range(3)]
+
+    def surface_normal(self, chain, sl, surf, gpos):
+        """unit normal, in the GLOBAL frame, of local surface `surf` of the universe at nesting
+        level `sl` of the chain [(u, v)…], at the global point `gpos`: the point is transformed
+        down through the daughter transforms of the OrangeInput, the gradient of the surface
+        function is taken there (central differences) and rotated up through the levels
+        sl-1 … 0 in that order.  Independent of the tracker.  None if not computable."""
+        p, trs = list(gpos), []
+        for k in range(sl):
+            u, v = chain[k]
+            un = self.univ[u]
+            if un["t"] == "rect":
+                tr = un["tr"][3 * v:3 * v + 3]
+                tr = tr if any(tr) else []
+            else:
+                if v not in un["dau"]:
+                    return None
+                tr = un["dau"][v][1]
+            trs.append(tr)
+            p = self.down(tr, p)
+        un = self.univ[chain[sl][0]]
+        if un["t"] == "rect":
+            nx, ny = len(un["g"][0]), len(un["g"][1])
+            ax = 0 if surf < nx else (1 if surf < nx + ny else 2)
+            n = [0.0, 0.0, 0.0]
+            n[ax] = 1.0
+        else:
+            if surf >= len(un["surfs"]):
+                return None
+            ty, dat = un["surfs"][surf]
+            h = 1e-6 * max(1.0, max(abs(c) for c in p))
+            n = []
+            for ax in range(3):
+                a = list(p); b = list(p)
+                a[ax] += h; b[ax] -= h
+                n.append((quadric(ty, dat, a) - quadric(ty, dat, b)) / (2 * h))
+        for tr in reversed(trs):
+            n = self.up_dir(tr, n)
+        nn = math.sqrt(sum(c * c for c in n))
+        if not (nn > 1e-9) or not math.isfinite(nn):
+            return None
+        return [c / nn for c in n]
+
+    def is_curved(self, chain, sl, surf):
+        un = self.univ[chain[sl][0]] if sl < len(chain) else None
+        if un is None or un["t"] == "rect" or surf >= len(un["surfs"]):
+            return False
+        return un["surfs"][surf][0] not in ("px", "py", "pz", "p")
 
     def locate(self, p, ui=0, delta=None):
         """returns (chain [(u, v)…] or None, near) ; near = some surface sense (or array cell)
@@ -366,9 +426,26 @@ def rnd_item_shape(rng, r):
 OCT = [(sx, sy, sz) for sx in (-1, 1) for sy in (-1, 1) for sz in (-1, 1)]
 
 
-def gen_unit(rng, units, depth, R, label, is_global, info):
+def axis_rotation(rng, ax):
+    """row-major rotation by a generic angle about coordinate axis `ax`, sometimes composed with
+    a reflection"""
+    th = (0.15 + 0.7 * rng.unit()) * math.pi * rng.choice([1.0, -1.0])
+    c, s_ = math.cos(th), math.sin(th)
+    i, j = [(1, 2), (2, 0), (0, 1)][ax]
+    m = [[1.0 if r == q else 0.0 for q in range(3)] for r in range(3)]
+    m[i][i], m[i][j], m[j][i], m[j][j] = c, -s_, s_, c
+    if rng.chance(1, 3):
+        a = rng.below(3)
+        for r in range(3):
+            m[r][a] = -m[r][a]
+    return [v for row in m for v in row]
+
+
+def gen_unit(rng, units, depth, R, label, is_global, info, chain_axes=()):
     """append the spec of a unit (and, before it, of its daughters) to `units`; return its index.
-    The unit's boundary has inradius >= R_in and circumradius <= R."""
+    The unit's boundary has inradius >= R_in and circumradius <= R.  `chain_axes`: force the
+    first item to be a daughter rotated about that axis (and so on down the chain); the unit at
+    the end of the chain gets curved material shapes only."""
     if is_global:
         if rng.chance(1, 2):
             bnd, rin = ["sph", fmt(R)], R
@@ -376,9 +453,12 @@ def gen_unit(rng, units, depth, R, label, is_global, info):
             bnd, rin = ["box", fmt(R), fmt(R), fmt(R)], R
     else:
         bnd, rin = rnd_convex(rng, R)
-        if rin <= 0 or bnd[0] in ("cone",):
+        if rin <= 0 or bnd[0] in ("cone",) or "chain" in info:
             bnd, rin = ["sph", fmt(R)], R
     n_items = rng.range(0 if not is_global else 1, 4)
+    chained = "chain" in info
+    if chained:
+        n_items = max(n_items, 1 if chain_axes else 3)
     octs = list(OCT)
     rng.shuffle(octs)
     mats, daus = [], []
@@ -387,7 +467,26 @@ def gen_unit(rng, units, depth, R, label, is_global, info):
         pos = [0.35 * rin * c for c in o]
         # octant centre at distance 0.606 rin; child circumradius below 0.27 rin
         r = rin * (0.12 + 0.15 * rng.unit())
-        if depth > 0 and rng.chance(3, 5):
+        if chained and chain_axes and k == 0:
+            r = rin * 0.27
+            idx = gen_unit(rng, units, depth - 1, r, "%s_%d" % (label, k), False, info, chain_axes[1:])
+            rot = axis_rotation(rng, chain_axes[0])
+            info["chain"].append((rot, pos))
+            info["rot_daughters"] += 1
+            daus.append([str(idx), "tx"] + [fmt(c) for c in rot] + [fmt(c) for c in pos])
+            continue
+        if chained and not chain_axes:
+            # deepest unit of the chain: curved surfaces (sphere, cylinder, cone, ellipsoid)
+            r = rin * (0.2 + 0.07 * rng.unit())
+            kind = rng.below(3)
+            shp = (["sph", fmt(r)] if kind == 0 else
+                   ["cyl", fmt(r * 0.6), fmt(r * 0.75)] if kind == 1 else
+                   ["cone", fmt(r * 0.2), fmt(r * 0.6), fmt(r * 0.6)])
+            tr, _ = rnd_transform(rng, pos)
+            mats.append(["tr"] + tr + shp)
+            info["deep_rin"] = rin
+            continue
+        if depth > 0 and not chained and rng.chance(3, 5):
             idx = gen_unit(rng, units, depth - 1, r, "%s_%d" % (label, k), False, info)
             tr, rot = rnd_transform(rng, pos)
             info["rot_daughters"] += rot
@@ -404,6 +503,31 @@ def gen_unit(rng, units, depth, R, label, is_global, info):
         spec += d
     units.append(spec)
     return len(units) - 1
+
+
+def gen_deep_spec(rng):
+    """>= 3 nesting levels whose consecutive daughter placements are rotations about DIFFERENT
+    axes by generic angles (non-commuting; some with reflections); the deepest unit holds curved
+    shapes.  Returns (tokens, R, info) with info['aim'] = (global centre, radius) of that unit."""
+    units, info = [], {"rot_daughters": 0, "chain": []}
+    depth = rng.range(2, 3)
+    axes, prev = [], -1
+    for _ in range(depth):
+        ax = rng.choice([a for a in range(3) if a != prev])
+        axes.append(ax)
+        prev = ax
+    R = rng.choice([50.0, 100.0])
+    gen_unit(rng, units, depth, R, "g", True, info, tuple(axes))
+    # chain entries were appended deepest-first (recursion returns before the append)
+    centre = [0.0, 0.0, 0.0]
+    for rot, pos in info["chain"]:
+        centre = [pos[r] + sum(rot[3 * r + c] * centre[c] for c in range(3)) for r in range(3)]
+    info["aim"] = (centre, info.get("deep_rin", 1.0))
+    info["deep"] = depth
+    toks = ["nunits", str(len(units))]
+    for u in units:
+        toks += u
+    return toks, R, info
 
 
 def gen_spec(rng):
@@ -507,6 +631,7 @@ class GeoRun:
         self.sess = None
         self.pg = None
         self.aim = None      # (centre, radius) of a region most rays should pass through
+        self.tangent_num = 1   # near-tangent set_dir on a boundary with probability tangent_num/4
         self.stats = {"tracks": 0, "ops": 0, "crossings": 0, "probes": 0, "near_skipped": 0,
                       "limited_checks": 0, "setdir_on_boundary": 0, "setdir_deeper": 0,
                       "reentrant": 0, "max_level": 0, "exits": 0, "init_fail": 0, "moves": 0}
@@ -572,6 +697,7 @@ class GeoRun:
         st_["tracks"] += 1
         self.probe(st["levels"][0]["pos"], chain_of(st), "after initialize", t0)
         n_setdir = 0
+        n_tangent = 0
         hint = None          # set after a set_dir on a boundary below the surface level
         crossings = 0
         post_cross = False   # on the surface just crossed, no move since
@@ -703,20 +829,77 @@ class GeoRun:
                                       {"geo": self.geo_line, "ops": s.lines[t0:]}))
                     return
             # --- on a boundary: maybe change direction (the set_dir clause of the property)
-            if st["sl"] != "-" and n_setdir < 4 and rng.chance(1, 3):
-                nd = rnd_unit_vec(rng)
-                if rng.chance(1, 2):        # bias towards reversing through the surface
-                    cur = st["levels"][0]["dir"]
-                    nd = [-cur[i] * 0.7 + nd[i] * 0.7 for i in range(3)]
-                    n = math.sqrt(sum(c * c for c in nd)) or 1.0
-                    nd = [c / n for c in nd]
-                st_["setdir_on_boundary"] += 1
-                if int(st["level"]) > int(st["sl"]):
-                    st_["setdir_deeper"] += 1
-                    hint = "setdir-rotate-up-range"
-                st, abort = set_dir(nd)
-                if abort:
-                    return
+            if st["sl"] != "-":
+                # (a) directions sampled densely near the tangent plane of the surface (within
+                #     ±20° of it, both sides), judged against a normal computed independently from
+                #     the OrangeInput (local point, gradient, rotations sl-1 … 0)
+                nrm = self.pg.surface_normal(chain_of(st), int(st["sl"]), int(st["surf"]),
+                                             st["levels"][0]["pos"])
+                k_tan = 0
+                while (nrm is not None and n_tangent < 12 and k_tan < 3
+                       and rng.chance(self.tangent_num, 4)):
+                    th = math.radians((rng.unit() * 2 - 1) * 20.0)
+                    if abs(th) < 2e-3:
+                        continue
+                    u_ = rnd_unit_vec(rng)
+                    dn_ = sum(u_[i] * nrm[i] for i in range(3))
+                    tau = [u_[i] - dn_ * nrm[i] for i in range(3)]
+                    tn = math.sqrt(sum(c * c for c in tau))
+                    if tn < 0.1:
+                        continue
+                    nd = [math.cos(th) * tau[i] / tn + math.sin(th) * nrm[i] for i in range(3)]
+                    nn = math.sqrt(sum(c * c for c in nd))
+                    nd = [c / nn for c in nd]
+                    old = st["levels"][0]["dir"]
+                    b0, lvl, sl_ = st["b"], int(st["level"]), int(st["sl"])
+                    st_["setdir_on_boundary"] += 1
+                    st_["tangent_setdir"] = st_.get("tangent_setdir", 0) + 1
+                    if sl_ >= 2:
+                        st_["tangent_setdir_sl2"] = st_.get("tangent_setdir_sl2", 0) + 1
+                    if lvl > sl_:
+                        st_["setdir_deeper"] += 1
+                    hint = ("setdir-rotate-up-range" if lvl > sl_ else
+                            "setdir-normal-frame" if sl_ >= 1 else None)
+                    was_post = post_cross
+                    st, abort = set_dir(nd)
+                    n_setdir -= 1
+                    n_tangent += 1
+                    k_tan += 1
+                    d_new = sum(nrm[i] * nd[i] for i in range(3))
+                    d_old = sum(nrm[i] * old[i] for i in range(3))
+                    if min(abs(d_new), abs(d_old)) > 1e-5:
+                        st_["flag_checks"] = st_.get("flag_checks", 0) + 1
+                        want = (d_new >= 0) != (d_old >= 0)
+                        got = st["b"] != b0
+                        if want != got:
+                            self.fail.append((
+                                "setdir-boundary-flag:" + ("curved" if self.pg.is_curved(
+                                    chain_of(st), sl_, int(st["surf"])) else "plane")
+                                + (":deep" if sl_ >= 2 else ""),
+                                f"set_dir on a boundary (surface level {sl_}, track level {lvl}): the "
+                                f"boundary flag {'was not flipped' if want else 'was flipped'} although "
+                                f"the independent surface normal {nrm} gives n.new={d_new:.6g}, "
+                                f"n.old={d_old:.6g}",
+                                {"geo": self.geo_line, "normal": nrm, "newdir": nd, "olddir": old,
+                                 "ops": s.lines[t0:]}))
+                    if abort:
+                        return
+                if n_setdir < 4 and k_tan == 0 and rng.chance(1, 3):
+                    nd = rnd_unit_vec(rng)
+                    if rng.chance(1, 2):        # bias towards reversing through the surface
+                        cur = st["levels"][0]["dir"]
+                        nd = [-cur[i] * 0.7 + nd[i] * 0.7 for i in range(3)]
+                        n = math.sqrt(sum(c * c for c in nd)) or 1.0
+                        nd = [c / n for c in nd]
+                    st_["setdir_on_boundary"] += 1
+                    if int(st["level"]) > int(st["sl"]):
+                        st_["setdir_deeper"] += 1
+                        hint = "setdir-rotate-up-range"
+                    elif int(st["sl"]) >= 1:
+                        hint = "setdir-normal-frame"
+                    st, abort = set_dir(nd)
+                    if abort:
+                        return
             if st["b"] == "0":
                 st_["reentrant"] += 1
             o = s.ask("cross")
@@ -746,6 +929,8 @@ class GeoRun:
             pos = [(rng.unit() * 2 - 1) * E * 0.9 for _ in range(3)]
             if rng.chance(1, 3):
                 pos = [c * 0.3 for c in pos]
+            if self.aim is not None and rng.chance(1, 3):
+                pos = [self.aim[0][i] + (rng.unit() * 2 - 1) * self.aim[1] * 0.55 for i in range(3)]
             tgt = [(rng.unit() * 2 - 1) * E * 0.5 for _ in range(3)]
             if self.aim is not None and rng.chance(3, 4):
                 tgt = [self.aim[0][i] + (rng.unit() * 2 - 1) * self.aim[1] * 0.6 for i in range(3)]
@@ -809,6 +994,10 @@ def run(ctx):
         toks, R, info = gen_spec(rng)
         jp = os.path.join(tmp, "rand%d.json" % k)
         geos.append(("rand%d" % k, "geo build %s 1e-5 %s" % (jp, " ".join(toks)), jp, R, info))
+    for k in range(8 if quick else 60):
+        toks, R, info = gen_deep_spec(rng)
+        jp = os.path.join(tmp, "deep%d.json" % k)
+        geos.append(("deep%d" % k, "geo build %s 1e-5 %s" % (jp, " ".join(toks)), jp, R, info))
     for k in range(6 if quick else 40):
         jp = os.path.join(tmp, "rect%d.json" % k)
         Rw, aim = gen_rect_json(rng, jp)
@@ -877,6 +1066,8 @@ def run(ctx):
         gr = GeoRun(ctx, exe, name, geo_line, jp, R or 1.0)
         if info and info.get("aim"):
             gr.aim = info["aim"]
+        if info and info.get("deep"):
+            gr.tangent_num = 3
         try:
             ok, why = gr.start()
         except (RuntimeError, BrokenPipeError, OSError):
